@@ -139,3 +139,42 @@ Proof.
   rewrite (c07_absent _ _ _ _ Hs Hsl Ht) in Hx. destruct (pt_required p); [discriminate|].
   injection Hx as <-. split; [reflexivity|exact Hw].
 Qed.
+
+(* ---- the same at run level under the extended semantics (Model/FactoryX.v: Init methods that call back into the
+   factory, post-processors that short-circuit instantiation; Proofs/FactoryXWiring.v).  Additional side conditions:
+   no component has more than 100 points, the Init methods of the post-processor components issue no lookups, and
+   the holder is not listed as short-circuited (such a component is not populated at all). ------------------- *)
+From IocVerif Require Import Model.FactoryX Proofs.FactoryXLife Proofs.FactoryXNoPanic Proofs.FactoryXWiring.
+
+Theorem c07_wired_named_extended : forall s x o st h c k p n,
+  small_points s -> run_xt repaired s x = (o, Ok st) ->
+  procs_pointless_b (normalise repaired s) = true -> procs_quiet_b (normalise repaired s) x = true ->
+  stages_ok_b (normalise repaired s) = true ->
+  alookup h (L1 (reg st)) <> None -> get_comp (s_pop s) h = Some c -> never_short x h -> nth_error (c_points c) k = Some p ->
+  pt_sel p = SByName (Some n) -> pt_slice p = false -> pt_target p <> TOther -> n <> h ->
+  (match pt_quals p with Some qs => qual_ok (s_pop s) qs n = true | None => True end) ->
+  (* exactly the named component (its published object, assignable to the field) ... *)
+  (map owner (field_of st h k) = [n]
+   /\ forallb (fun v => assignable (s_pop s) v (pt_target p)) (field_of st h k) = true)
+  (* ... or, when it cannot be assigned, an untouched optional field (a required one fails the start) *)
+  \/ (field_of st h k = [] /\ pt_required p = false).
+Proof.
+  intros s x o st h c k p n Hsm H Hpp Hqt Hso Hpub Hc Hns Hk Hs Hsl Ht Hne Hq.
+  destruct (run_xt_wired s x o st Hsm H Hpp Hqt Hso h c k p Hpub Hc Hns Hk) as [y0 [Hx Hw]].
+  unfold further_one in Hx. rewrite (c07_named_exact _ _ _ _ _ Hs Hsl Ht Hne Hq) in Hx. injection Hx as <-.
+  unfold wired_point in Hw. cbn [map remove_nil] in Hw. rewrite Hsl in Hw. cbn [firstn] in Hw. exact Hw.
+Qed.
+
+Theorem c07_wired_absent_extended : forall s x o st h c k p,
+  small_points s -> run_xt repaired s x = (o, Ok st) ->
+  procs_pointless_b (normalise repaired s) = true -> procs_quiet_b (normalise repaired s) x = true ->
+  stages_ok_b (normalise repaired s) = true ->
+  alookup h (L1 (reg st)) <> None -> get_comp (s_pop s) h = Some c -> never_short x h -> nth_error (c_points c) k = Some p ->
+  pt_sel p = SByName None -> pt_slice p = false -> pt_target p <> TOther ->
+  pt_required p = false /\ field_of st h k = [].
+Proof.
+  intros s x o st h c k p Hsm H Hpp Hqt Hso Hpub Hc Hns Hk Hs Hsl Ht.
+  destruct (run_xt_wired s x o st Hsm H Hpp Hqt Hso h c k p Hpub Hc Hns Hk) as [y0 [Hx Hw]].
+  rewrite (c07_absent _ _ _ _ Hs Hsl Ht) in Hx. destruct (pt_required p); [discriminate|].
+  injection Hx as <-. split; [reflexivity|exact Hw].
+Qed.
